@@ -394,21 +394,29 @@ def limiter_pipeline(run, prop, classify_mismatch, classify_reject, graphs=True,
         exhaustive = exhaustive and rep["edges_unreachable"] == 0
     run.exhaustive = exhaustive
     n = 600 if th else 150
-    out, _ = run.go("^TestLimiterRandom$", env={"VERIF_N": n})
+    # histories made of concurrent bursts of completions (every completion is folded exactly once): the bulk under C09
+    nb = (200 if th else 40) if prop == "C09" else 4
+    out, _ = run.go("^TestLimiterRandom$", env={"VERIF_N": n, "VERIF_BURSTY": nb}, timeout=1800)
     tp = os.path.join(out, "limiter_trace.ndjson")
     rows = vlib.read_ndjson(tp)
     closes = sum(1 for x in rows if x["ev"] == "Op" and x["res"].get("samples"))
     drops = sum(1 for x in rows if x["ev"] == "Op" and any(sm.get("drop") for sm in x["res"].get("samples") or []))
     if closes < 10 or drops < 1:
         raise Machinery("random limiter histories are vacuous: %d window closings, %d with a drop" % (closes, drops))
-    run.extra["random_histories"] = {"histories": n, "calls": len(rows) - n, "windows_closed": closes, "closed_with_drop": drops}
+    bursts = [x for x in rows if x["ev"] == "Op" and x["op"]["op"] == "burst"]
+    if len(bursts) < nb:
+        raise Machinery("random limiter histories hold only %d concurrent bursts" % len(bursts))
+    n += nb
+    run.extra["random_histories"] = {"histories": n, "calls": len(rows) - n, "windows_closed": closes, "closed_with_drop": drops,
+                                     "bursty_histories": nb, "concurrent_bursts": len(bursts),
+                                     "completions_in_bursts": sum(len(x["op"]["items"]) for x in bursts)}
     rejects, total = validate_sharded(run, "LimiterTrace", "Limiter_trace.cfg", tp)
     run.traces += n
     run.events += total
     run.sample({"recorded_history_excerpt": rows[:3]})
     det_reject_report(run, prop, rejects, tp, "DefaultLimiter", classify_reject)
     run.assumptions += [
-        "sequential histories (C09 and C05 quantify over histories; concurrent completions racing for an update are explored by C01/C02's machinery)",
+        "histories are sequential except for bursts of completions issued from concurrent goroutines while the window cannot become ready (their outcome is order independent); completions racing for an update are explored by C01/C02's machinery",
         "exhaustive part: window size 10 (the code's minimum), limit trajectory of the scripted algorithm, ages <= 2 ticks, one or two window closings",
         "virtual clock of testing/synctest makes every RTT exact",
     ]
@@ -422,8 +430,35 @@ def _res_field_differs(m, field):
         return True
 
 
+def window_conc(run, prop):
+    """The sampling window under concurrent completions: TLC explores every interleaving of the two critical sections
+    (fold, update) of three completions (spec/WindowConc.tla: NoLoss, SeenOnce, OnlyReady, DropExact); the snapshot
+    design must violate NoLoss; the real limiter is driven through every edge (schedule point default.afterFold)."""
+    indir = os.path.join(run.scratch, "in_wc")
+    os.makedirs(indir, exist_ok=True)
+    for name in ("a", "b"):
+        r = run.tlc("WindowConc", "WindowConc_mc_%s.cfg" % name, workers=1, label="mc+gen:WindowConc/" + name)
+        if r.error or not r.ok:
+            raise Machinery("TLC %s: %s %s\n%s" % (r.label, r.error, r.violation, r.raw[-3000:]))
+        run.states += r.distinct
+        run.transitions += r.generated
+        n = emit_graph(run, r, os.path.join(indir, "windowconc_%s.ndjson" % name))
+        if n != r.generated - 1:
+            raise Machinery("TLC %s printed %d transitions but generated %d states" % (r.label, n, r.generated))
+    run.neg("WindowConc", "WindowConc_neg_snapshot.cfg")
+    out, _ = run.go("^TestWindowConc$", env={"VERIF_IN": indir}, timeout=1200)
+    for rep in json.load(open(os.path.join(out, "windowconc_replay.json"))):
+        label = "WindowConc/" + os.path.basename(rep["file"])
+        for m in graph_report(run, prop, rep, label):
+            run.report("DefaultLimiter, concurrent completions: after the schedule %s the step %s left window / delivered samples %s / %s, the model (every folded completion is handed to the algorithm exactly once) fixes %s / %s" % (
+                json.dumps(m["path"]), json.dumps(m["op"]), m["got_obs"], m["got_res"], m["exp_obs"], m["exp_res"]),
+                {"graph": label, "mismatch": m, "rerun": "bin/check %s" % prop}, {"kind": "default", "what": "concurrent fold"})
+    run.assumptions.append("concurrent completions: three calls, each parked between its fold and its update; window pre-filled sequentially to one or zero short of ready")
+
+
 def c09(run):
     windowed_part(run, "C09")
+    window_conc(run, "C09")
     # every mismatch of the Limiter contract is about the window / the samples handed to the algorithm
     limiter_pipeline(run, "C09", lambda m: {"kind": "default", "what": "samples" if _res_field_differs(m, "samples") else "state"},
                      lambda rj, tr: {"kind": "default", "why": rj["why"]}, big=run.tier == "thorough")
